@@ -187,6 +187,9 @@ class Interp(StmtMixin, ExprMixin, CallMixin, BuiltinMixin, OMapMixin, EngineBas
         if a.vararg or a.kwarg:
             if a.kwarg:
                 kw = con.params.get(a.kwarg.arg)
+                if isinstance(kw, dict):
+                    # declared keyword arguments: each is present with a symbolic value of the given sort
+                    kw = SDict({k: (z3.BoolVal(True), t.const("p_kw_" + k)) for k, t in kw.items()})
                 frame[a.kwarg.arg] = kw if isinstance(kw, SDict) else SDict()
             if a.vararg:
                 frame[a.vararg.arg] = ()
